@@ -176,7 +176,7 @@ def run(ctx):
     ctx.assumptions = [
         "Go int is 64 bits (from/len/index are ints; the model is total over Z and the uint32 conversion absorbs the int64 wrap of 32-len)",
         "the success paths of SetStaticCANID/UpdateID/AddSentMessage/RemoveSentMessage/AddNodeInterface/RemoveNodeInterface are as modelled in wstep (their bookkeeping is the subject of C04-C06); refusals observed in the run leave both sides unchanged",
-        "Bus.SetCANIDBuilder(nil) is excluded (GetCANID then dereferences nil; counted under C05/C06)",
+        "Bus.SetCANIDBuilder(nil) installs a new default builder (bus.go since d47e551); modelled (WSetBuilderNil, world_nil_builder) and generated",
     ]
     if ctx.tier == "thorough":
         ok, chk = vlib.coqchk(PID)
